@@ -104,7 +104,12 @@ Fixpoint bad (i : nat) (cs : list (list N * list nat * list N)) : list nat :=
 Definition M := Eval vm_compute in bad 0%%nat cases.
 Print M.
 """ % coq_list(items)
-    ok, out = ctx.coq_cases("c32_wait", text)
+    import os
+    ok, out = ctx.coq_cases("c32_wait_%d" % os.getpid(), text)
+    try:
+        os.remove(os.path.join(os.path.dirname(os.path.dirname(os.path.abspath(__file__))), "coq", "Cases", "c32_wait_%d.v" % os.getpid()))
+    except OSError:
+        pass
     m = re.search(r"M\s*=\s*(\[[^\]]*\])", out)
     if not ok or not m:
         ctx.broken.append(("correspondence:wait-eval", "coqc on wait cases failed: " + out[-800:]))
